@@ -64,6 +64,8 @@ def run_case(case):
         classes.add("jinja.undefined_in_condition")
     if "undefined_with_default" in feats:
         classes.add("jinja.undefined_with_default")
+    if "for_else" in feats:
+        classes.add("jinja.for_else")
     if ref is None:
         return {"status": "skip", "counters": counters}
     fails = []
